@@ -152,7 +152,8 @@ func execEnv(env expand.Environ) []string {
 
 func (r *Runner) lookupVar(name string) expand.Variable {
 	if name == "" {
-		panic("variable name must not be empty")
+		// e.g. `unset ''`, `[[ -v "" ]]`, a nameref with an empty target
+		return expand.Variable{}
 	}
 	var vr expand.Variable
 	switch name {
